@@ -692,6 +692,26 @@ func classifyCrash(stderr string) (string, string) {
 	case strings.Contains(low, "out of memory") || strings.Contains(low, "cannot allocate memory") || strings.Contains(low, "runtime: cannot map pages"):
 		return "excluded", "memory-exhaustion"
 	case strings.Contains(low, "fatal error: concurrent map"):
+		// a script container shared between script goroutines is outside the guarantee;
+		// the environment's own tables are not: decide by the faulting goroutine's frames
+		if i := strings.Index(low, "\n\ngoroutine "); i >= 0 {
+			first := low[i+2:]
+			if j := strings.Index(first, "\n\n"); j > 0 {
+				first = first[:j]
+			}
+			ei := strings.Index(first, "github.com/mattn/anko/env.")
+			vi := strings.Index(first, "github.com/mattn/anko/vm.")
+			if ei >= 0 && (vi < 0 || ei < vi) {
+				fn := first[ei:]
+				if k := strings.Index(fn, "("); k > 0 {
+					if k2 := strings.Index(fn[k+1:], "("); k2 > 0 && strings.HasPrefix(fn[k:], "(*Env)") {
+						k = k + 1 + k2
+					}
+					fn = fn[:k]
+				}
+				return "violation", strings.TrimPrefix(fn, "github.com/mattn/anko/") + ":fatal error: concurrent map access inside the environment"
+			}
+		}
 		return "excluded", "concurrent-map-access-between-script-goroutines"
 	}
 	msg := ""
